@@ -653,19 +653,47 @@ func runR017(c *core.Ctx) {
 			return true
 		})
 		c.Check(okF, rel, "(*"+recv+").WriteFloat32", "float32 is widened exactly via float64(v)", fd.Pos(), "", "WriteFloat32 does not delegate to WriteFloat64(float64(v))")
-		// Float64 default branch -> Float64
+		// Float64 default branch: shortest round-trip formatting at 64 bits (jwriter.Float64 or strconv.Format/AppendFloat(v, fmt, -1, 64));
+		// the ROR2 flavours must pass the text through their escaper ('+' of the exponent is reserved in query strings)
 		f64 := mustFunc(c, rel, "(*"+recv+").WriteFloat64")
 		fd64 := c.M.Decl(f64)
-		got := ""
+		got, escaped := "", false
+		par64 := core.Parents(fd64.Body)
 		ast.Inspect(fd64.Body, func(n ast.Node) bool {
-			if call, ok := n.(*ast.CallExpr); ok {
-				if cf := core.Callee(inf, call); cf != nil && core.IsMethod(cf, jw, "Writer", cf.Name()) && strings.HasPrefix(cf.Name(), "Float") {
-					got = cf.Name()
+			call, ok := n.(*ast.CallExpr)
+			if !ok {
+				return true
+			}
+			cf := core.Callee(inf, call)
+			switch {
+			case cf != nil && core.IsMethod(cf, jw, "Writer", cf.Name()) && strings.HasPrefix(cf.Name(), "Float"):
+				got = cf.Name()
+			case cf != nil && (core.IsFunc(cf, "strconv", "FormatFloat") || core.IsFunc(cf, "strconv", "AppendFloat")):
+				a := call.Args
+				if cf.Name() == "AppendFloat" {
+					a = a[1:]
+				}
+				prec, bits := core.ConstOf(inf, a[2]), core.ConstOf(inf, a[3])
+				if prec != nil && bits != nil && prec.ExactString() == "-1" && bits.ExactString() == "64" {
+					got = "Float64"
+				} else {
+					got = cf.Name() + "(" + core.ExprString(a[2]) + ", " + core.ExprString(a[3]) + ")"
+				}
+				if outer, ok := par64[call].(*ast.CallExpr); ok {
+					if sel, ok := core.Unparen(outer.Fun).(*ast.SelectorExpr); ok {
+						if fv, ok := core.ObjOf(inf, sel).(*types.Var); ok && fv.IsField() && strings.Contains(strings.ToLower(fv.Name()), "escape") {
+							escaped = true
+						}
+					}
 				}
 			}
 			return true
 		})
-		c.Check(got == "Float64", rel, "(*"+recv+").WriteFloat64", "finite values are written with Float64", fd64.Pos(), got, "calls jwriter."+got)
+		c.Check(got == "Float64", rel, "(*"+recv+").WriteFloat64", "finite values are written with Float64", fd64.Pos(), got, "formats with "+got+": not the shortest 64-bit round-trip form")
+		if recv == "ror2Writer" {
+			c.Check(escaped, rel, "(*"+recv+").WriteFloat64", "the formatted number passes through the flavour's escaper", fd64.Pos(), "",
+				"finite values reach the buffer unescaped: the exponent sign of 1e+21 is a space after query unescaping and the value does not decode")
+		}
 	}
 	// JSON reader
 	jl := "github.com/mailru/easyjson/jlexer"
